@@ -51,24 +51,26 @@ func (a Action) strs(k string) []string {
 }
 
 type AbsState struct {
-	Conn    []string                  `json:"conn"`
-	Known   map[string][]string       `json:"known"`
-	Feats   map[string][]FeatVer      `json:"feats"`
-	Subs    []RegEntry                `json:"subs"`
-	Binds   []RegEntry                `json:"binds"`
-	SubIds  []uint64                  `json:"subids"`
-	BindIds []uint64                  `json:"bindids"`
-	CSub    []CEntry                  `json:"csub"`
-	CBind   []CEntry                  `json:"cbind"`
-	Data    map[string]int            `json:"data"`
-	RData   map[string]int            `json:"rdata"`
-	RUcs    map[string]int            `json:"rucs"`
-	EDesc   map[string]map[string]int `json:"edesc"` // peer -> entity -> version of its description (0 none, -1 unexpected)
-	Nid     int                       `json:"nid"`
-	Ucs     []AbsUc                   `json:"ucs"`
-	HasUc   []UcKey                   `json:"hasuc"`
-	Res     map[string]bool           `json:"res"`  // peer resolvable by SKI
-	ResA    map[string]bool           `json:"resa"` // peer resolvable by device address
+	Conn       []string                  `json:"conn"`
+	Known      map[string][]string       `json:"known"`
+	Feats      map[string][]FeatVer      `json:"feats"`
+	Subs       []RegEntry                `json:"subs"`
+	Binds      []RegEntry                `json:"binds"`
+	SubIds     []uint64                  `json:"subids"`
+	BindIds    []uint64                  `json:"bindids"`
+	CSub       []CEntry                  `json:"csub"`
+	CBind      []CEntry                  `json:"cbind"`
+	Data       map[string]int            `json:"data"`
+	RData      map[string]int            `json:"rdata"`
+	RUcs       map[string]int            `json:"rucs"`
+	UcSnapOk   bool                      `json:"ucsnapok"`   // use-case data sets handed out in earlier steps are unchanged
+	AnnounceOk bool                      `json:"announceok"` // every local feature announces the operations it was configured with
+	EDesc      map[string]map[string]int `json:"edesc"`      // peer -> entity -> version of its description (0 none, -1 unexpected)
+	Nid        int                       `json:"nid"`
+	Ucs        []AbsUc                   `json:"ucs"`
+	HasUc      []UcKey                   `json:"hasuc"`
+	Res        map[string]bool           `json:"res"`  // peer resolvable by SKI
+	ResA       map[string]bool           `json:"resa"` // peer resolvable by device address
 }
 type UcKey struct {
 	E     string `json:"e"`
@@ -467,7 +469,11 @@ func (s *System) exec(a Action, p *Peer, line *TraceLine) (injected uint64) {
 		case "other":
 			cmd.Function = ptr(fnMap[a.str("ofn")])
 		}
-		injected = s.inject(p, model.CmdClassifierTypeWrite, s.remoteAddr(p, a.str("c")), s.localAddr(a.str("s")), ack, nil, cmd)
+		src := s.remoteAddr(p, a.str("c"))
+		if a.str("hdev") == "omit" {
+			src.Device = nil // the device part of the source address is optional
+		}
+		injected = s.inject(p, model.CmdClassifierTypeWrite, src, s.localAddr(a.str("s")), ack, nil, cmd)
 	case "read":
 		cmd := model.CmdType{}
 		cmd.SetDataForFunction(fnMap[a.str("fn")], emptyData(a.str("fn")))
@@ -663,9 +669,24 @@ func (s *System) project() *AbsState {
 			sort.Slice(st.Feats[pn], func(i, j int) bool { return st.Feats[pn][i].F < st.Feats[pn][j].F })
 		}
 	}
+	st.AnnounceOk = s.announceOk()
 	st.Ucs = []AbsUc{}
+	st.UcSnapOk = true
 	if d, ok := s.lfeat["NM"].DataCopy(model.FunctionTypeNodeManagementUseCaseData).(*model.NodeManagementUseCaseDataType); ok {
 		st.Ucs = absUcs(d)
+		// data handed out earlier never changes (C11): the use-case data sets read in the last steps are kept and compared
+		for _, sn := range s.ucSnaps {
+			if b, _ := json.Marshal(sn.obj); string(b) != sn.json {
+				st.UcSnapOk = false
+			}
+		}
+		if d != nil {
+			b, _ := json.Marshal(d)
+			s.ucSnaps = append(s.ucSnaps, ucSnap{d, string(b)})
+			if len(s.ucSnaps) > 6 {
+				s.ucSnaps = s.ucSnaps[1:]
+			}
+		}
 	}
 	st.HasUc = []UcKey{}
 	for _, e := range []string{"1", "1.1", "2"} {
